@@ -202,7 +202,7 @@ def shrink_scn(ck, hbin, drv, scn, env, cls, tries=3):
     best = None
     changed = True
     budget = 40
-    if "TIMEOUT" in cls or "hard-timeout" in cls:      # every attempt costs the full deadline
+    if "TIMEOUT" in cls or "hard-timeout" in cls or "timed out" in cls:      # every attempt costs the full deadline
         budget, tries = 10, 1
     while changed and budget > 0:
         changed = False
